@@ -3,11 +3,12 @@ SPEC = {
     "lean_props": ["TunnoxModel.Props.C10", "TunnoxModel.Props.C10Ties"],
     "harness": {
         "pkg": "c10",
-        "shims": {},
+        "shims": {"session": "internal/protocol/session"},
         "runs": [
             {"args": ["-mode", "dec"], "corpus": "dec", "gomemlimit": "12GiB"},
             {"args": ["-mode", "rt"], "corpus": "rt"},
             {"args": ["-mode", "st"], "corpus": "st"},
+            {"args": ["-mode", "fw"], "corpus": "fw"},
         ],
     },
     "strip_obs": r" alloc \d+",
@@ -18,7 +19,8 @@ SPEC = {
              "real WriteFrameToWriter and back; st: two real FrameStreams over a loopback TCP pair (optionally through a "
              "re-chunking proxy): every sequence of <= 3 events over {write, empty write, CloseWrite, Close, foreign data "
              "frame, foreign close frame, own unknown-type frame, own empty data frame}, write sizes k*64KiB+{-1,0,1} against "
-             "read buffers below/at/above a frame, random scripts; non-trivial = stream cut at least once (dec/rt) or >= 2 "
+             "read buffers below/at/above a frame, random scripts; fw: the real runBidirectionalForward between a TCP application connection and a FrameStream "
+             "(upload, half-close, answer, close; sizes 0..100000); non-trivial = stream cut at least once (dec/rt) or >= 2 "
              "events (st); distinct = distinct (events/stream prefix, sizes, chunking, read pattern)"),
     "trusted_base": [
         "Lean 4.33 kernel; axioms propext, Classical.choice, Quot.sound only (audited per theorem on every run)",
